@@ -1,1 +1,2 @@
 import Norad.Props.C11
+import Norad.Props.C12
